@@ -275,6 +275,13 @@ def run(ctx):
         R, C = rng.randint(10, 40), rng.randint(10, 40)
         jobs.append((R, C, rng.randint(1, 64), rng.choice(["cdelt", "cd"]),
                      rng.choice(["hdu", "file"]), rng.random() < 0.5, rng.randint(0, 10 ** 6)))
+    # long axes (thousands of rows or columns, a few pixels across): block-wise or chunked implementations
+    big = [(1500, 3, 16), (2100, 2, 7), (1030, 4, 64), (3, 1500, 16), (2, 2600, 300), (4100, 2, 1000)]
+    if not quick:
+        big += [(rng.randint(1025, 5000), rng.randint(2, 4), rng.choice([3, 16, 100, 1024, 2000])) for _ in range(20)]
+        big += [(rng.randint(2, 4), rng.randint(1025, 5000), rng.choice([3, 16, 100, 1024, 2000])) for _ in range(10)]
+    for n, (R, C, f) in enumerate(big):
+        jobs.append((R, C, f, ("cdelt", "cd")[n % 2], ("hdu", "file")[n // 2 % 2], n % 3 != 0, rng.randint(0, 10 ** 6)))
     d = os.path.join(ctx.workdir, "files")
     os.makedirs(d, exist_ok=True)
     with mp.Pool(16, initializer=_init, initargs=(d,)) as pool:
